@@ -36,6 +36,25 @@ CHECKS = {
             "5 C12"),
 }
 
+CHECKS.update({
+    "C13": ("kani", MC, "bounded model checking (Kani/CBMC) of one inductive step of the real combinator code from an arbitrary pre-state, with environment stubs",
+            "The real Separation algebra, FilterEntry::feed, Not::feed (stacks of 1-3 in every order, negation verdict stubbed arbitrary) and WalkTree::{next, cancel_walk_tree} (walkdir stubbed) are model checked for one step from every pre-state and verdict: the traversal is cancelled exactly once iff the entry becomes a discarded tree in this step, and skip_current_dir is issued iff the last yielded item is a directory. Failures are reproduced on a real directory tree through the public API before being reported.",
+            "Lifts to whole walks by induction over yielded entries under the stated walkdir 2.5 contract (skip_current_dir right after a directory removes exactly its subtree). Root-is-a-symlink corner and walkdir itself are outside the claim. Trusted: Kani/CBMC, stubs, DirEntry mirror.",
+            "5 C13"),
+    "C15": ("kani", MC, "bounded model checking (Kani/CBMC), full 64-bit width, of the real depth translation and walk configuration code",
+            "For every DepthBehavior obtainable from the public constructors, every pivot and traversal depth: walkdir's documented yield condition on the numbers the real *_at_pivot functions return is equivalent to 'depth + pivot within the configured bounds' (split at max >= pivot); constructors keep and order bounds; WalkTree::with_pivot_and_behavior hands exactly those numbers and the link flag to the (recorded) WalkDir builder.",
+            "Depth clause and link *configuration* only: what walkdir and the OS then do with links (descent, cycle errors, termination) is outside the claim. Trusted: Kani/CBMC, walkdir's documented min/max_depth semantics.",
+            "5 C15"),
+    "C16": ("kani", MC, "bounded model checking (Kani/CBMC) of one feed() step of stacks of the real FilterEntry / Not combinators over a one-shot symbolic source",
+            "For stacks of 1-3 real layers in every order, every pre-state and all verdicts: the result is the strongest verdict (keep < file < tree), hence order independent, never un-filtered, never downgraded; every layer's verdict function is called exactly once per non-error entry; filter::filtrate yields exactly the filtrate items. Failures are reproduced on a real directory tree (battery of 399 stacks) before being reported.",
+            "Stacks deeper than 3 and whole-walk histories follow by induction (each layer is the same code); the negation's verdict is an arbitrary stub (C03 decides it). Trusted: Kani/CBMC.",
+            "5 C16"),
+    "C20": ("kani", MC, "bounded model checking (Kani/CBMC) of the error path of the real combinators and of the real walkdir::Error -> WalkError conversion",
+            "In the C13/C16 step harnesses the source may deliver an error item of arbitrary depth: through every stack it comes out unchanged as filtrate, no verdict function is called and nothing is cancelled; From<walkdir::Error> preserves depth and path for Io (with/without path) and Loop errors and its expect()s are unreachable.",
+            "Pass-through and error mapping only: that a fault produces exactly one error item and that the walk carries on is walkdir + OS behaviour, outside the claim.",
+            "5 C20"),
+})
+
 NOT_APPLICABLE = {
     "C06": "the rule checker and the nom parser feeding it cannot be executed symbolically with what is installed (CBMC: >25 min / 7 GB on a 5-leaf token tree, 1 symbolic byte through the parser >20 min); deciding concrete Glob::new verdicts against a reference would be enumeration, a different technique (DESIGN 5 C06, 6)",
     "C17": "every span originates in the nom parser (pori::span, ErrorEntry::location); without a symbolic expression there is nothing for a solver to decide and slicing concrete expressions is enumeration (DESIGN 5 C17, 6)",
